@@ -516,6 +516,8 @@ void instrument_install(World &w, const InstrOpts &o) {
         SCPI_ResultInt32(ww.ctx, 5025);
         return SCPI_RES_OK;
     });
+    w.add_null_command("TEST:NULLcb");      // defined headers without a callback: accepted, nothing runs, parameters are surplus
+    w.add_null_command("TEST:NULLcb?");
     w.add_command("STUB", [](World &) { return SCPI_RES_OK; });
     w.add_command("STUB?", [](World &ww) {
         SCPI_ResultInt32(ww.ctx, 0);
@@ -539,7 +541,7 @@ void instrument_install(World &w, const InstrOpts &o) {
 namespace {
 const char *HEADERS_PLAIN[] = {
     "*IDN?", "*OPC", "*OPC?", "*WAI", "*TST?", "*RST", "SYST:VERS?", "SYSTem:VERSion?", "TEST:TREEA?", "TEST:TREEB?", "test:treea?", ":TEST:TREEB?",
-    "TEST:MULT?", "TEST:MULTi?", "TEST:NORE?", "TEST:FAIL", "TEST:FAIL?", "TEST:ERR", "TEST:BLKH?", "TEST:BLKD?", "TEST:BLKT?", "STUB", "STUB?", "VOLT?", "MEAS:VOLT?", "MEAS:VOLT:DC?",
+    "TEST:MULT?", "TEST:MULTi?", "TEST:NORE?", "TEST:FAIL", "TEST:FAIL?", "TEST:ERR", "TEST:BLKH?", "TEST:BLKD?", "TEST:BLKT?", "TEST:NULL", "TEST:NULL?", "TEST:NULL 1,2", "STUB", "STUB?", "VOLT?", "MEAS:VOLT?", "MEAS:VOLT:DC?",
     ":MEASure:VOLTage:DC?", "VOLT:AC?", "MEAS:VOLT:AC?", "SYST:COMM:TCPIP:CONTROL?", "TEST1:NUM2", "TEST:NUMbers", "TEST12:NUMB345",
 };
 const char *HEADERS_STATUS[] = {
